@@ -239,7 +239,9 @@ namespace bluetoe {
 
             void yes_no_response( bool response ) override
             {
-                assert( this->state() == details::sm_pairing_state::user_response_wait );
+                // the pairing that asked the question might have been aborted in the meantime
+                if ( this->state() != details::sm_pairing_state::user_response_wait )
+                    return;
 
                 this->state( response
                     ? details::sm_pairing_state::user_response_success
@@ -392,7 +394,9 @@ namespace bluetoe {
 
             void yes_no_response( bool response ) override
             {
-                assert( this->state() == details::sm_pairing_state::user_response_wait );
+                // the pairing that asked the question might have been aborted in the meantime
+                if ( this->state() != details::sm_pairing_state::user_response_wait )
+                    return;
 
                 this->state( response
                     ? details::sm_pairing_state::user_response_success
